@@ -186,8 +186,9 @@ def gen_case(run_seed: int, tier: str, index: int = 0) -> dict:
             plan[str(i)] = evs
     # how the journal is consumed: 0 nobody reads it, 1 a hook reads every public attribute of each new entry
     # (while the object is alive), 2 hook + the entries are read and displayed after the blocks
-    consumer = r.choice([0, 1, 1, 2])
-    return {"property": PROPERTY, "run_seed": run_seed, "ops": op_list, "plan": plan, "consumer": consumer}
+    consumer = r.choice([0, 1, 1, 2, 3])
+    # consumer 3: the hook also raises once, on the k-th entry it sees (a fault in the user's observer)
+    return {"property": PROPERTY, "run_seed": run_seed, "ops": op_list, "plan": plan, "consumer": consumer, "hook_raises_at": r.choice([0, 1, 3, 8, 20])}
 
 
 def _read_entry(e) -> None:
@@ -219,7 +220,11 @@ def run_plain(op_list: list) -> list:
     return out
 
 
-def run_journaled(op_list: list, plan: dict, stats: dict, consumer: int = 0):
+class _HookFault(Exception):
+    pass
+
+
+def run_journaled(op_list: list, plan: dict, stats: dict, consumer: int = 0, hook_raises_at: int = 0):
     """Returns (outcomes, violation, journals) — holds no reference to IR objects on return."""
 
     def inc(k, n=1):
@@ -235,6 +240,15 @@ def run_journaled(op_list: list, plan: dict, stats: dict, consumer: int = 0):
     journals: list = []
     stack: list = []
     out = []
+    hook_state = {"seen": 0, "fired_at_op": None, "op": -1}
+
+    def faulty_hook(e):
+        _read_entry(e)
+        hook_state["seen"] += 1
+        if hook_state["fired_at_op"] is None and hook_state["seen"] > hook_raises_at:
+            hook_state["fired_at_op"] = hook_state["op"]
+            raise _HookFault("injected failure in a journal hook")
+
     w = World()
     try:
         for i in range(len(op_list) + 1):
@@ -242,7 +256,10 @@ def run_journaled(op_list: list, plan: dict, stats: dict, consumer: int = 0):
                 if ev == "enter":
                     if len(stack) < 3:
                         jr = _j.Journal()
-                        if consumer:
+                        if consumer == 3:
+                            jr.add_hook(faulty_hook)
+                            inc("journal_hooks")
+                        elif consumer:
                             jr.add_hook(_read_entry)
                             inc("journal_hooks")
                         jr.__enter__()
@@ -272,13 +289,24 @@ def run_journaled(op_list: list, plan: dict, stats: dict, consumer: int = 0):
             op = op_list[i]
             before_counts = [len(jr.entries) for jr in stack]
             log_start = len(obs.log)
+            hook_state["op"] = i
             r = ops.apply_op(w, op)
             res = _canon_result(w, r)
             del r
-            out.append((res, digest(sorted(snapshot.snapshot(w, tensors=False).items()))))
+            if hook_state["fired_at_op"] is not None:
+                # an operation (possibly a constructor) was cut short by the injected observer failure: half-built
+                # objects may be reachable, and the state is no longer compared with the plain run anyway
+                out.append((res, None))
+            else:
+                out.append((res, digest(sorted(snapshot.snapshot(w, tensors=False).items()))))
             calls = obs.log[log_start:]
             if stack:
                 inc("ops_inside_journal")
+            if hook_state["fired_at_op"] == i:
+                # the operation during which the observer failed was cut short by that failure: its own
+                # entries / calls are not compared (everything before and after is)
+                inc("hook_fault_fired")
+                continue
             for jr, n0 in zip(stack, before_counts):
                 new = jr.entries[n0:]
                 inc("entries_recorded", len(new))
@@ -313,6 +341,7 @@ def run_journaled(op_list: list, plan: dict, stats: dict, consumer: int = 0):
         obs.uninstall()
         _jmod.time = saved_time
     del w
+    stats["_hook_fault_op"] = hook_state["fired_at_op"]
     return out, viol, journals
 
 
@@ -326,7 +355,8 @@ def run_case(case: dict) -> dict:
         return res
     plain = run_plain(op_list)
     consumer = case.get("consumer", 0)
-    journaled, viol, journals = run_journaled(op_list, plan, stats, consumer)
+    journaled, viol, journals = run_journaled(op_list, plan, stats, consumer, case.get("hook_raises_at", 0))
+    hook_op = stats.pop("_hook_fault_op", None)
     if consumer == 2 and viol is None:
         sink = io.StringIO()
         try:
@@ -342,6 +372,8 @@ def run_case(case: dict) -> dict:
             viol = {"clause": "journal-unreadable", "detail": f"reading/displaying the recorded entries raised {type(e).__name__}: {e}", "key": f"journal-unreadable|{type(e).__name__}"}
     if viol is None:
         for i, (a, b) in enumerate(zip(plain, journaled)):
+            if hook_op is not None and i >= hook_op:
+                break  # the injected observer failure aborted an operation: the two histories legitimately differ from here on
             if a[0] != b[0]:
                 viol = {"clause": "outcome-differs-under-journal", "detail": f"op {i} {op_list[i][0]}: plain run {a[0]} vs journaled run {b[0]}", "key": f"outcome-differs-under-journal|{op_list[i][0]}"}
                 break
